@@ -37,8 +37,8 @@ PROPS['C06'] = {
 
 PROPS['C03'] = {
     'kani': {
-        'quick': [krun(['c03::q::'], timeout=900, bounds='N <= 4 (iterator ops: every (front,back) position and one of 10 operations symbolic, nth argument any usize); functional/conversions N in {0,1,3,4}; split/concat/remove/flatten/native on the listed (N,K) / (N,M) instantiations')],
-        'thorough': [krun(['c03::'], timeout=2400, bounds='N <= 8; more (N,K), (N,M) pairs; tuples to arity 12')],
+        'quick': [krun(['c03::q::', 'c15::q::from_heap::'], timeout=900, bounds='N <= 4 (iterator ops: every (front,back) position and one of 10 operations symbolic, nth argument any usize); functional/conversions N in {0,1,3,4}; split/concat/remove/flatten/native on the listed (N,K) / (N,M) instantiations')],
+        'thorough': [krun(['c03::', 'c15::q::from_heap::', 'c15::t::from_heap::'], timeout=2400, bounds='N <= 8; more (N,K), (N,M) pairs; tuples to arity 12')],
     },
     'functions': ['GenericArrayIter::*', 'GenericArray::{generate,map,zip,fold,clone,from_array,into_array,try_from_iter,from_iter,try_boxed_from_iter,into_vec,into_boxed_slice,try_from_vec,try_from_boxed_slice}',
                   'Lengthen/Shorten/Split/Concat/Remove/Flatten/Unflatten for GenericArray', 'From/TryFrom between GenericArray, Vec, Box<[T]>, tuples'],
@@ -262,3 +262,40 @@ PROPS['C01']['bounds'] = 'L: ALL lengths (induction over the even/odd recursion)
 PROPS['C01']['assumptions'] += ['the Rust Reference\'s repr(C) algorithm and repr(transparent) guarantee', 'the 3-line induction over the binary digits of N (stated in the evidence) is carried out on paper; the solver discharges base case and both steps']
 PROPS['C19']['layout'] = True
 PROPS['C19']['bounds'] += ' L: each storage node consists of exactly two children (+ one element for odd lengths), so the slot count obeys cnt(2k) = 2 cnt(k), cnt(2k+1) = 2 cnt(k) + 1 for every N; the ConstDefault literals are exhaustive struct literals (enforced by rustc).'
+
+IFF = ['iff.from_slice', 'iff.try_from_slice', 'iff.from_mut_slice', 'iff.try_from_mut_slice', 'iff.TryFrom', 'iff.TryFromMut']
+IFF_CTFE = ['iff.from_slice.ctfe', 'iff.try_from_slice.ctfe', 'iff.from_mut_slice.ctfe', 'iff.try_from_mut_slice.ctfe']
+VIEWS = ['view.as_slice', 'view.as_mut_slice', 'view.deref', 'view.deref_mut', 'view.as_ref', 'view.as_mut', 'view.borrow', 'view.borrow_mut', 'view.into_iter_ref', 'view.into_iter_mut']
+CHUNKS = ['chunks.chunks_from_slice', 'chunks.chunks_from_slice_mut', 'unchunk.slice_from_chunks', 'unchunk.slice_from_chunks_mut']
+CHUNKS_CTFE = [c + '.ctfe' for c in CHUNKS]
+PROPS['C02']['mir'] = {'quick': [mrun(IFF + VIEWS)]}
+PROPS['C02']['technique'] = 'symbolic execution of rustc MIR + z3 (length checks and view extents for ALL 64-bit N and slice lengths L) + bounded model checking with Kani/CBMC on concrete (T,N) instantiations'
+PROPS['C02']['bounds'] += ' M: the reinterpreting cast is reached iff L == N, for ALL 64-bit N and L (from_slice, try_from_slice, from_mut_slice, try_from_mut_slice, both TryFrom impls); every borrowed view is (address of self, N) for ALL N.'
+PROPS['C10']['mir'] = {'quick': [mrun(CHUNKS + CHUNKS_CTFE)]}
+PROPS['C10']['technique'] = 'symbolic execution of rustc MIR (run-time and CTFE bodies) + z3 over mathematical integers with explicit wrap conditions (ALL N, L) + bounded model checking with Kani/CBMC'
+PROPS['C10']['bounds'] += ' M: chunk count = floor(L/N), remainder = L mod N, adjacency and exact cover for ALL 64-bit N and L, run-time and CTFE bodies; N = 0 branch.'
+PROPS['C10']['assumptions'] += ['slice_from_chunks: the chunk slice is a valid slice of the source (chunks * N <= source length, no wrap) - a chunk slice of zero-sized elements with chunks * N > usize::MAX cannot come from chunking and is outside the quantifier']
+PROPS['C18']['mir'] = {'quick': [mrun(IFF_CTFE + CHUNKS_CTFE + ['view.as_slice.ctfe', 'view.as_mut_slice.ctfe'] + IFF[:4] + CHUNKS)]}
+PROPS['C18']['technique'] = 'symbolic execution of the MIR-for-CTFE bodies (what the const evaluator interprets) + z3, same functional specification as the run-time bodies (which determines the result uniquely, hence agreement); Kani/CBMC compares real const items with run-time calls'
+PROPS['C18']['bounds'] = 'M: CTFE bodies of from_slice, try_from_slice, from_mut_slice, try_from_mut_slice, as_slice, as_mut_slice, chunks_from_slice(_mut), slice_from_chunks(_mut) for ALL 64-bit N and L: every produced reference stays inside its source, no unreachable/overflow, and the same specification as the run-time body. K: const items on a small lattice.'
+PROPS['C01']['mir'] = {'quick': [mrun(['view.as_slice', 'view.as_mut_slice'])]}
+
+PROPS['C09']['mir'] = {'quick': [mrun(['remove.oob', 'swap_remove.oob'])]}
+PROPS['C09']['technique'] = 'bounded model checking with Kani/CBMC against a Vec-semantics model + symbolic execution of rustc MIR with unwind edges and z3 for the out-of-bounds panic path (ALL N, idx)'
+PROPS['C09']['bounds'] += ' M: remove/swap_remove with idx >= N never return and drop the receiver exactly once on the unwind edge, for ALL 64-bit N and idx.'
+PROPS['C09']['outside'] = [o for o in PROPS['C09']['outside'] if 'needs unwinding' not in o]
+DELEG = {'scenarios': ['delegation.eq', 'delegation.partial_cmp', 'delegation.cmp', 'delegation.hash', 'delegation.fmt'], 'nmax': 3, 'timeout': 600, 'advisory': True}
+PROPS['C13']['mir'] = {'quick': [DELEG]}
+PROPS['C13']['technique'] = 'bounded model checking with Kani/CBMC (symbolic pairs vs. an independent lexicographic model, recording Hasher / formatter sink) + symbolic execution of rustc MIR showing each impl is a single delegation to the uninterpreted slice method (ALL N, T, hasher/formatter states)'
+PROPS['C13']['bounds'] += ' M (delegation, advisory): eq/partial_cmp/cmp/hash/fmt each return exactly the slice method applied to as_slice(self)[, as_slice(other)] and the caller\'s own state - for ALL N; if an impl stops being a plain delegation the obligation is reported as not discharged and the bounded K harnesses decide.'
+PROPS['C06']['mir']['quick'].append({'scenarios': ['delegation.iter_fmt'], 'nmax': 3, 'timeout': 600, 'advisory': True})
+
+for tier in ('quick', 'thorough'):
+    PROPS['C04']['mir'][tier][0]['scenarios'] += ['clone', 'ref.map']
+PROPS['C04']['functions'] += ['Clone for GenericArray (self.map(Clone::clone))', 'FunctionalSequence::map trait-default body with a & receiver']
+
+PROPS['C14']['mir'] = {'quick': [mrun(['hex.small', 'hex.medium', 'hex.large'])]}
+PROPS['C14']['technique'] = 'bounded model checking with Kani/CBMC end to end (N <= 17, symbolic bytes / precision / case) + symbolic execution of rustc MIR with z3 for the index arithmetic of all three strategies (0..=15, 16..=1024, 1025..=4200 with the chunk loop unrolled)'
+PROPS['C14']['bounds'] += ' M: for every N in 0..=4200 and every precision (None or any usize): unreachable_unchecked unreachable, every unchecked index in range, the encoder\'s size precondition holds at both call sites, exactly min(precision, 2N) digits emitted and only digits the encoder produced, input bytes consumed in index order; the encoder is a stub with its contract.'
+PROPS['C14']['outside'] = ['feature faster-hex on: the SIMD kernels (inline asm/intrinsics) cannot be encoded; the crate-side preconditions (which make unwrap_unchecked sound) are what M discharges', 'N > 4200 (chunk-loop unrolling bound)', 'width/fill flags (ignored by the implementation)']
+PROPS['C14']['assumptions'] += ['M stub: hex_encode / hex_encode_fallback write the digits of src into dst[..2*src.len()] provided dst.len() >= 2*src.len() (the fallback\'s behaviour is checked end to end by K for N <= 17)']
